@@ -696,6 +696,10 @@ func GenValueText(r *Rand, o *Opt) string {
 		} else {
 			key = GenScalarText(r, t.MapKey, o.Base, 0)
 		}
+		if t.K == KString && r.Chance(1, 8) {
+			// a value part that itself starts with a double quote (only a whole argument is ever unquoted)
+			return key + ":" + r.Pick([]string{"\"x y\"", "\"", "\"open", "\"a\\tb\"", "\"\""})
+		}
 		return key + ":" + GenScalarText(r, t.K, o.Base, 0)
 	}
 	return GenScalarText(r, t.K, o.Base, 0)
